@@ -100,7 +100,7 @@ def _items(stmts, anti, typeeq, swap):
         elif isinstance(s, ast.Return):
             out.append(('ret', _norm_ret(f(s.value), anti, swap)))
         elif isinstance(s, ast.If):
-            for test, body in if_chain(s):
+            for test, body in if_chain(s, extend=False):
                 tn = 'else' if test is None else _norm_test(f(test), typeeq)
                 if test is not None and isinstance(test, ast.Compare) and isinstance(test.left, ast.Name) and test.left.id in anti:
                     tn = U(test)
